@@ -49,6 +49,35 @@ def run(repo, rep, tier):
     _calls(repo, rep)
     _collector(repo, rep)
     _public(repo, rep)
+    # a generated local is '__' + kind + '_' + what it is for: the KIND (the
+    # prefix handed to identifier()) is a word of the compiler -- a constant,
+    # or a constant format -- unless the suffix is an object identity; with
+    # template text as the prefix, an attribute named 'slot_x' would spell
+    # the slot variable '__slot_x_attr'
+    badp = []
+    n_id = 0
+    for q_, f_ in sorted(repo.funcs.items()):
+        if f_.module.name != "chameleon.compiler":
+            continue
+        for c_ in ast.walk(f_.node):
+            if isinstance(c_, ast.Call) and src(c_.func) == "identifier" \
+                    and c_.args:
+                n_id += 1
+                pre = L.inline_locals(f_.node, c_.args[0])
+                suf = c_.args[1] if len(c_.args) > 1 else None
+                const = isinstance(pre, ast.Constant) or (
+                    isinstance(pre, ast.BinOp) and isinstance(
+                        pre.op, ast.Mod) and isinstance(
+                            pre.left, ast.Constant))
+                ident = suf is not None and isinstance(suf, ast.Call) and \
+                    src(suf.func) == "id"
+                if not const and not ident:
+                    badp.append("%s: %s" % (f_.name, src(c_)[:60]))
+    rep.check(n_id >= 10 and not badp, "R09.1",
+              "chameleon.compiler.identifier", "the prefix of every "
+              "generated identifier is a word of the compiler (%d call "
+              "sites)" % n_id, construct="identifier-kind-constant",
+              detail="; ".join(badp))
     L.state_rule(repo, rep)
 
 
